@@ -298,8 +298,7 @@ def derived_state(chk):
             reads = expr_reads(ci, ef[3], repo)
             ctrl = set()
             for c, t, ln in p.conds:
-                if ln < ef[4]:
-                    ctrl |= expr_reads(ci, c, repo)
+                ctrl |= expr_reads(ci, c, repo)
             if SRC in reads:
                 derived[attr] = f"value `{U(ef[3])[:50]}` reads self.{SRC}"
             elif SRC in ctrl and len({U(e[3]) for _, e in lst}) > 1:
